@@ -463,7 +463,7 @@ def decorate_object(r, t, live):
         if isinstance(md, dict) and r.random() < 0.6:
             tmd = t.get("metadata") if isinstance(t.get("metadata"), dict) else {}
             for k, v in BOOKKEEPING.items():
-                if k not in tmd and r.random() < 0.5:
+                if k not in tmd and k not in md and r.random() < 0.5:     # never over what the server stamped
                     md[k] = copy.deepcopy(v)
     return out
 
